@@ -90,17 +90,14 @@ func (controller *ProgressController) GetTransactionProgress(writer http.Respons
 		response.Write(http.StatusInternalServerError, errorMessage)
 		return
 	}
-	if len(blocks) == 0 {
-		errorMessage := "failed to get last block, get blocks returned an empty list"
-		controller.logger.Error(fmt.Errorf("%s: %w", errorMessage, err).Error())
-		response.Write(http.StatusInternalServerError, errorMessage)
-		return
-	}
-	for _, validatedTransaction := range blocks[0].Transactions() {
-		if validatedTransaction.Id() == searchedUtxo.TransactionId() {
-			progressInfo.TransactionStatus = "validated"
-			response.WriteJson(http.StatusOK, progressInfo)
-			return
+	// The validator may not have produced the block of the current height yet: nothing is validated there, look at the pool
+	if len(blocks) != 0 && blocks[0] != nil {
+		for _, validatedTransaction := range blocks[0].Transactions() {
+			if validatedTransaction.Id() == searchedUtxo.TransactionId() {
+				progressInfo.TransactionStatus = "validated"
+				response.WriteJson(http.StatusOK, progressInfo)
+				return
+			}
 		}
 	}
 	transactionsBytes, err := controller.sender.GetTransactions()
